@@ -327,8 +327,7 @@ Definition in_domain (c : call) : bool :=
   match c_fn c with
   | FFind | FPosition | FCount | FRemove | FDelete => true
   | FFindIf | FPositionIf | FCountIf | FRemoveIf | FDeleteIf => true
-  | FSubstitute | FNsubstitute => not_test_not (c_test c)               (* KF :test-not ignored *)
-  | FSubstituteIf | FNsubstituteIf => true
+  | FSubstitute | FNsubstitute | FSubstituteIf | FNsubstituteIf => true
   | FRemoveDuplicates | FDeleteDuplicates =>
       (* under :from-end the test receives (later element, earlier element): the order the language
          implies (sequence order) only for symmetric tests *)
@@ -358,8 +357,7 @@ Definition in_domain (c : call) : bool :=
   | FMerge =>
       test_strict (c_test c)
   | FUnion | FIntersection => is_list (c_seq c) && is_list (c_seq2 c) && test_equivalence (c_test c)
-  | FSetDifference => is_list (c_seq c) && is_list (c_seq2 c) && not_test_not (c_test c)
-  | FSubsetp => is_list (c_seq c) && is_list (c_seq2 c) && not_test_not (c_test c)
+  | FSetDifference | FSubsetp => is_list (c_seq c) && is_list (c_seq2 c)
   | FEvery | FNotany | FNotevery => not_test_not (c_test c)
   | FSome =>
       (* the element-answering predicate (c_flag) is only written for one sequence *)
